@@ -92,6 +92,7 @@ func emitC18(o *leanOut, repo string) {
 	o.nat("c18_tileWidth", consts["TileWidth"])
 
 	// the right-edge arithmetic
+	o.strList("c18_level_guard", c18Ifs(as, "cleanDir", "t.L"))
 	o.str("c18_tileSize_expr", c18Assign(as, "cleanDir", "tileSize"))
 	o.strList("c18_edge_guard", c18Ifs(as, "cleanDir", "tileSize"))
 	// the width guard and the prefix/suffix tests
@@ -101,7 +102,8 @@ func emitC18(o *leanOut, repo string) {
 	// effect skeleton of cleanDir: listings, parses, the override and the removals with how their errors leave
 	cd := &skelCfg{
 		prefixes: []string{"fs.ReadDir", "root.Remove", "parseTilePath", "overrideImmutable", "cleanDir", "strings.", "ctx.Err"},
-		guards:   []string{"HasPrefix", "!ok", "t.N", "t.W"},
+		guards:   []string{"HasPrefix", "!ok", "t.N", "t.W", "t.L"},
+		assigns:  []string{"tileSize"},
 	}
 	o.strList("c18_cleanDir_skel", skeleton(as, "cleanDir", cd))
 	ov := &skelCfg{
